@@ -173,7 +173,26 @@ pub fn run(ctx: &Ctx) -> Report {
       let ans = orc.ask(&line);
       ans.strip_prefix("OK ").map(|x| x.trim().to_string())
     };
+    // the (time cell, space cell) builder without flush (Model/STBuilder.v), element for element
+    let stb_model: Option<String> = if kind == 0 {
+      let mut line = format!("STBM {} {} {}", dt, ds, obs.len());
+      for o in &obs {
+        line.push_str(&format!(" {} {}", o.ta >> sh_t, o.cell.unwrap()));
+      }
+      orc.ask(&line).strip_prefix("OK ").map(|x| x.trim().to_string())
+    } else {
+      None
+    };
     for (name, form, r) in outs {
+      if name == "from_fixed_depth_cells(cap=None)" {
+        if let (Ok(out), Some(m)) = (&r, &stb_model) {
+          rep.evaluations += 1;
+          let got = format!("{} {}", out.elems.len(), out.elems.iter().map(|(t, sp)| format!("{} {}", ranges_str(t), ranges_str(sp))).collect::<Vec<_>>().join(" ")).trim().to_string();
+          if &got != m {
+            rep.violation("from_fixed_depth_cells (no flush): the result differs, element for element, from the model of buff_to_moc", &format!("{} # path={}", case, name), &got, m, "C09_cell_builder_as_written");
+          }
+        }
+      }
       if form == "R2D" {
         if let (Ok(out), Some(m)) = (&r, &r2d_model) {
           rep.evaluations += 1;
